@@ -6,23 +6,37 @@ def _fields(line):
 
 
 def nontrivial(line):
-    # distinct (alphabet, width, mode, data set, rng seed) with at least 50 steps and >= 2 sequences
+    # The generator runs every case once and appends nt=<calls that moved a start>:<calls that
+    # recruited a sequence into the active set>:<calls of next() that returned Some>.
+    # Non-trivial (DESIGN 3.20): at least one start changed and, in zoops mode, at least one
+    # sequence was recruited; distinct by (alphabet, width, mode, parameters, rng seed, data set).
     f = _fields(line)
+    nt = f.get("nt", "")
     try:
-        if int(f.get("steps", "0")) >= 50 and f.get("seqs", "").count(",") >= 1:
-            return (f.get("abc"), f.get("w"), f.get("mode"), f.get("seeds"), f.get("rng"), hash(f.get("seqs")))
+        moved, recruited, calls = [int(x) for x in nt.split(":")]
     except ValueError:
-        pass
+        return None
+    zoops = f.get("mode") == "zoops" and f.get("api") != "new"
+    if moved >= 1 and (recruited >= 1 or not zoops) and f.get("seqs", "").count(",") >= 1:
+        return (f.get("abc"), f.get("w"), f.get("mode"), f.get("seeds"), f.get("inertia"), f.get("patience"),
+                f.get("rng"), hash(f.get("seqs")))
     return None
 
 
 def histogram(line):
     f = _fields(line)
     n = f.get("seqs", "").count(",") + 1
-    steps = int(f.get("steps", "0"))
-    return ["abc=" + f.get("abc", "?"), "mode=" + f.get("mode", "?"), "api=" + f.get("api", "?"),
+    keys = ["abc=" + f.get("abc", "?"), "mode=" + f.get("mode", "?"), "api=" + f.get("api", "?"),
             "arm=" + f.get("arm", "?"), "w<=%d" % (4 * ((int(f.get("w", "0")) + 3) // 4)),
-            "nseq<=%d" % (4 * ((n + 3) // 4)), "steps<=%d" % (100 * ((steps + 99) // 100))]
+            "nseq<=%d" % (4 * ((n + 3) // 4))]
+    try:
+        moved, recruited, calls = [int(x) for x in f.get("nt", "").split(":")]
+        keys += ["calls<=%d" % (100 * ((calls + 99) // 100)),
+                 "moved:" + ("0" if moved == 0 else "1-9" if moved < 10 else "10-99" if moved < 100 else "100+"),
+                 "recruited:" + ("0" if recruited == 0 else "1-2" if recruited < 3 else "3+")]
+    except ValueError:
+        keys.append("steps<=%d" % (100 * ((int(f.get("steps", "0")) + 99) // 100)))
+    return keys
 
 
 SPEC = dict(
@@ -32,11 +46,53 @@ SPEC = dict(
     module="LMSampler.C16",
     harness_bin="sampler",
     ml_modules=["sampler_model"],
-    n={"quick": 40, "thorough": 800},
-    search_n={"quick": 200, "thorough": 1500},
+    n={"quick": 300, "thorough": 3000},
+    search_n={"quick": 600, "thorough": 5000},
     nontrivial=nontrivial,
     histogram=histogram,
-    rule="TODO",
-    trusted_base=[],
-    assumptions=[],
+    rule="Corpus (15 documented-panic configurations, the 30-protein data set of the unit tests x 4, 3 edge "
+         "cases) + generated runs: DNA (3/5) or protein, width 1..12, 2..12 sequences of length width..80 (1/25 "
+         "exactly the width, planted common word, wildcards), oops via Sampler::new / SamplerBuilder or zoops via "
+         "the builder (seeds 2..n, sometimes > n; inertia none/0..11; patience none/0..24/200..1199; both setter "
+         "orders), seeded StdRng, 300..400 calls of next() (thorough 300..600), dispatcher arm default/generic/"
+         "sse2/avx2, wrap rows = width + {0,1,5}. Observed after construction and after EVERY call: "
+         "count_matrix() cells and sequence count, background().frequencies() bit patterns, active_sequences(), "
+         "active_starts(), verif_starts() (hook), Iteration.{z,step,counts}; the whole run twice (rerun=same); "
+         "count_symbols() and Index of every striped sequence. PROPFAIL = the extracted, proved-sound-and-complete "
+         "checker check_C16 (binary32 frequencies replayed bit for bit) rejects the implementation's own "
+         "observations; DIFF = the extracted model, replayed with the choice list read off the trace (z, new start, "
+         "zoops accept/reject), does not reproduce a state, an iteration, the convergence or a panic. "
+         "Non-trivial: the run moved at least one start and, in zoops mode, recruited at least one sequence "
+         "(computed by the generator, field nt=moved:recruited:calls); distinct by configuration and data set.",
+    trusted_base=[
+        "Coq 8.16.1 kernel (coqc); vm_compute only in the non-vacuity Examples; no native_compute; the 13 "
+        "theorems of C16.v are closed under the global context (no axioms)",
+        "extraction: ExtrOcamlBasic only (nat, N, Z, positive, list, option kept as extracted inductives); OCaml 4.13.1",
+        "LMBase.IEEE binary32 division / integer conversion on Flocq 4.1 (used only to render the background "
+        "frequencies count as f32 / total as f32; the theorems are parametric in that rendering)",
+        "hand-written OCaml driver ocaml/sampler/driver.ml (parsing of the trace, mapping of active_sequences/"
+        "active_starts/verif_starts to the report record, reading the choice list off the trace)",
+        "Rust harness harness/src/bin/sampler.rs (public API + the add-only hook Sampler::verif_starts, catch_unwind)",
+        "modelled, not verified: sampler.rs itself (the Gallina model SamplerModel.v follows _new, SamplerBuilder, "
+        "select_holdout, include_sequence, exclude_sequence, prepare_pssm/background(), update_holdout, "
+        "Iterator::next statement by statement with every panic site explicit; tied to the code only by the "
+        "correspondence run); rand (Uniform, WeightedIndex, index::sample, SliceRandom::choose) is replaced by the "
+        "choice list; the f32 part (to_freq, into_scoring, score_into, information_content, 2^x weights) only "
+        "influences the choices and is not modelled",
+    ],
+    assumptions=[
+        "symbols of an encoded sequence are < K (Rust type invariant of Symbol; re-checked on every data set: sym=)",
+        "SamplerData::new caches count_symbols of every sequence and StripedSequence::index returns the encoded "
+        "symbol (re-checked on every data set: cnt=, sym=; the latter is property C04)",
+        "the data set fits the counters: number of sequences <= u32::MAX, total length <= usize::MAX (data_ok)",
+        "every sequence at least as long as the width and wrap >= width (the constructor's guards; otherwise the "
+        "model returns Panic 1 / 2 like the code); progress theorem: sequences strictly longer than the width",
+        "choices that an RNG can produce: z < n (a seed during the inertia phase), a new start among the "
+        "len - width + 1 scored positions (StripedScores::iter bounded by max_index) — impossible choices are Err, "
+        "outside the quantifier",
+        "documented outside the quantifier (DESIGN 3/C16): panics of the unchanged code with an empty active set "
+        "(single sequence, zoops with 0 or 1 seed, all active sequences exactly as long as the width), an empty "
+        "data set, an empty seed list during inertia, WeightedIndex overflow, step counter overflow — model "
+        "Panic 5..9; theorem sampler_no_panic shows these are the only ones",
+    ],
 )
